@@ -104,6 +104,13 @@ class LenMatch(AbstractValue):
                     self.layout.append(('x%d' % j, None))
         if not self.layout:
             self.layout = [('g1', 1), ('g2', 2), ('g3', 3)]
+        self.names = {}
+        if pattern is not None:
+            import re as _re
+            try:
+                self.names = dict(_re.compile(pattern).groupindex)
+            except _re.error:
+                self.names = {}
         self.total = Aff({}, 0)
         self.spans = {}
         for sym, gid in self.layout:
@@ -127,7 +134,10 @@ class LenMatch(AbstractValue):
         return _AbsBound(self, name)
 
     def abs_method(self, interp, name, args, kwargs):
+        args = [self.names.get(a, a) if isinstance(a, str) else a for a in args]
         g = args[0] if args else 0
+        if name == 'groupdict':
+            return {k: TabFree(self.spans[i][2], 'group%d' % i) for k, i in self.names.items()}
         if name == 'group':
             if len(args) > 1:
                 return tuple(TabFree(self.spans[a][2], 'group%d' % a) for a in args)
